@@ -26,12 +26,44 @@ type c28Case struct {
 	CS       []bool
 	N        int // the size around which thresholds are placed
 	Chunk    bool
+	// Big: a further document of far more than 64 KiB, given by the filler
+	// lengths of its lines ("start" + filler + "end"); the regexps below match
+	// across its line ends
+	Big []int `json:",omitempty"`
+}
+
+// c28Big renders the big document.
+func c28Big(lens []int) string {
+	var sb strings.Builder
+	for i, n := range lens {
+		if i > 0 {
+			sb.WriteByte('\n')
+		}
+		sb.WriteString("start")
+		sb.WriteString(strings.Repeat("a", n))
+		sb.WriteString("end")
+	}
+	return sb.String()
+}
+
+func c28Short(docs []string) []string {
+	out := make([]string, len(docs))
+	for i, d := range docs {
+		if len(d) > 300 {
+			d = fmt.Sprintf("%s...(%d bytes)", d[:300], len(d))
+		}
+		out[i] = d
+	}
+	return out
 }
 
 func runC28(rec *kit.Recorder, c c28Case) error {
 	defer hybridre2.VerifSetThreshold(-1)
 	repo := kit.Repo{Name: "r", ID: 1, Branches: []kit.Branch{{Name: "HEAD", Version: "v"}}}
 	below, above := false, false
+	if len(c.Big) > 0 {
+		c.Docs = append(append([]string(nil), c.Docs...), c28Big(c.Big))
+	}
 	for i, s := range c.Docs {
 		repo.Docs = append(repo.Docs, kit.Doc{Name: fmt.Sprintf("f%d.txt", i), Content: kit.Text(s), Branches: []string{"HEAD"}, Language: "Text"})
 		if len(s) < c.N {
@@ -99,10 +131,10 @@ func runC28(rec *kit.Recorder, c c28Case) error {
 						}
 					}
 				}
-				return kit.FailKnown(known, "threshold-dependent", "pattern %q (case=%v) docs %q: threshold %d gives %v, threshold %d gives %v", full, q.CaseSensitive, c.Docs, baseT, base, th, got)
+				return kit.FailKnown(known, "threshold-dependent", "pattern %q (case=%v) docs %q: threshold %d gives %v, threshold %d gives %v", full, q.CaseSensitive, c28Short(c.Docs), baseT, base, th, got)
 			}
 		}
-		rec.Eval(fmt.Sprintf("%+v|%s|%v", c.Docs, pat, c.CS[pi]), below && above && len(base) > 0, fmt.Sprintf("matches:%v", len(base) > 0))
+		rec.Eval(fmt.Sprintf("%+v|%v|%s|%v", c28Short(c.Docs), c.Big, pat, c.CS[pi]), below && above && len(base) > 0, fmt.Sprintf("matches:%v", len(base) > 0), fmt.Sprintf("bigdoc:%v", len(c.Big) > 0))
 	}
 	rec.Sample(c, below && above)
 	return nil
@@ -110,7 +142,7 @@ func runC28(rec *kit.Recorder, c c28Case) error {
 
 func TestVerif_C28(t *testing.T) {
 	rec := kit.Open(t, "C28",
-		"2-5 valid UTF-8 documents with sizes placed around a size N (N-1, N, N+1 and far away) x 3-6 regexps (query-syntax shapes, plus empty-matching and case-folding ones) searched with thresholds {-1 (disabled), 0 (always RE2), N-1, N, N+1, 2^40}; all thresholds must give identical files and ranges; non-trivial = a document on each side of N and at least one match; distinct by hash",
+		"2-5 valid UTF-8 documents with sizes placed around a size N (N-1, N, N+1 and far away; in 12% of the cases one more document of 66 KiB - 200 KiB whose regexps match across every line end) x 3-6 regexps (query-syntax shapes, plus empty-matching and case-folding ones) searched with thresholds {-1 (disabled), 0 (always RE2), N-1, N, N+1, 2^40}; all thresholds must give identical files and ranges; non-trivial = a document on each side of N and at least one match; distinct by hash",
 		"patterns RE2 refuses to compile are skipped (documented fail-fast)",
 		"the threshold is switched through a verification-only setter for the package variable the code documents as reassignable by tests",
 	)
@@ -137,6 +169,20 @@ func TestVerif_C28(t *testing.T) {
 			}
 			c.Docs = append(c.Docs, s)
 			corp.Repos[0].Docs = append(corp.Repos[0].Docs, kit.Doc{Name: fmt.Sprint(i), Content: kit.Text(s)})
+		}
+		if g.Bool(12, "big") {
+			total := 0
+			for total < 66000+g.U(3, "bigwin")*65536 {
+				n := g.Int(0, 400, "bigline")
+				c.Big = append(c.Big, n)
+				total += n + 9
+			}
+			for _, p := range []string{`end\nstart`, `end\s+start`, `d\n+s`, `a+end[^a]start`, `(?s)end.start`} {
+				if g.Bool(60, "bigpat") {
+					c.Patterns = append(c.Patterns, p)
+					c.CS = append(c.CS, g.Bool(50, "cs"))
+				}
+			}
 		}
 		np := g.Int(3, 6, "npat")
 		for i := 0; i < np; i++ {
